@@ -41,7 +41,7 @@ FINISH = dict(level="proof",
                            "the demultiplexing decision itself (which payloads are STUN) is covered by C03-C06"])
 
 FM = 0xF800
-TIE_MODS = ["Nice.Data.FramingModel", "Nice.Data.RecvModel"]
+TIE_MODS = ["Nice.Data.FramingModel"]
 
 
 # ------------------------------------------------------------------ contents (same generator in harness/data_h.c and in the Coq tie)
